@@ -70,10 +70,15 @@ func prop(t *rapid.T) {
 		}
 		chainS, ps, res := pm.Expect(q[0], q[1])
 		st := w.NewRequest(q[0], q[1])
-		out := st.Serve(r)
+		entry := "ServeHTTP"
+		if rapid.IntRange(0, 5).Draw(t, "viaHandleContext") == 0 {
+			entry = "HandleContext" // the other dispatch entry point: the same containment applies
+			ev.Class("entry:HandleContext")
+		}
+		out := st.ServeVia(r, entry)
 		want, _ := chain.ModelDispatch(chainS, pm.Hooks, chain.NewRec(), st.Req, ps, false)
 		ev.Eval()
-		ctx := fmt.Sprintf("request %d: %s %q (%s) hook=%s\nprogram:\n%sscripts:\n%s", i, q[0], q[1], res.Kind, hookKind, prog, prog.Scripts())
+		ctx := fmt.Sprintf("request %d via %s: %s %q (%s) hook=%s\nprogram:\n%sscripts:\n%s", i, entry, q[0], q[1], res.Kind, hookKind, prog, prog.Scripts())
 		if d := chain.Diff(out, want); d != "" {
 			t.Fatalf("%s\n%s", d, ctx)
 		}
